@@ -117,6 +117,27 @@ def _inside_call_to_helper(P, f, c):
     return False
 
 
+def check_decoder_escapes(P, R, f):
+    # only the parsing error escapes the decoder (escape analysis)
+    from ..escape import Escapes
+    E = Escapes(P)
+    req_err_ = P.cls('ombott.request_pkg.errors:RequestError')
+    for (cname, origin) in sorted(E.escapes(f)):
+        pc = [c for c in P.classes.values() if c.name == cname]
+        ok = bool(pc) and P.is_subclass(pc[0], req_err_)
+        where = origin.rpartition(' @')[0].split(' ', 1)[-1]
+        R.ob('C05.d', f, None, ok, text=f'_iter_chunked may raise {cname} ({where})', detail='' if ok else
+             f'{cname} from `{where}` can leave the decoder: it is not a request error, so framing garbage is answered with a 500 instead of a client error',
+             why='no framing garbage causes anything but acceptance or a client error', key_extra=f'{cname}:{where}')
+    # decoder state is local to the call (size-line buffer, flags): no module-level scratch objects
+    from .. import effects as EF
+    for w in EF.shared_writes(P, [f]):
+        R.ob('C05.d', f, w['node'], False, detail=
+             f'the decoder keeps scanning state in the shared location {w["target"]}: two bodies decoded at the same time overwrite each other\'s size digits '
+             f'(a truncated body can be accepted as complete)', key_extra='shared:' + w['target'] + w['kind'])
+
+
+
 def check(P, R):
     R.rule('C05.a', 'payload loop: bounded request, received-length accounting', floor=2)
     R.rule('C05.b', 'every stream read is checked; failure leads only to the parsing error', floor=4)
@@ -127,6 +148,8 @@ def check(P, R):
 
     f = P.func(f'{BM}:_iter_chunked')
     g, rd = f.cfg, f.rd
+    # shape-independent clauses first: what can leave the decoder, and where its state lives
+    check_decoder_escapes(P, R, f)
     reads = c04.read_param_calls(f)
     helper_reads = 0
     for hc in [x for x in walk_shallow(f.node) if isinstance(x, ast.Call) and isinstance(x.func, ast.Name) and x.args
@@ -346,24 +369,6 @@ def check(P, R):
                     cap_node = n
     R.ob('C05.d', f, cap_node.ast if cap_node else f.node, capped, text='size-line scan capped by buff_size',
          detail='' if capped else 'no bound on the number of bytes scanned for a size line')
-
-    # only the parsing error escapes the decoder (escape analysis)
-    from ..escape import Escapes
-    E = Escapes(P)
-    req_err_ = P.cls('ombott.request_pkg.errors:RequestError')
-    for (cname, origin) in sorted(E.escapes(f)):
-        pc = [c for c in P.classes.values() if c.name == cname]
-        ok = bool(pc) and P.is_subclass(pc[0], req_err_)
-        where = origin.rpartition(' @')[0].split(' ', 1)[-1]
-        R.ob('C05.d', f, None, ok, text=f'_iter_chunked may raise {cname} ({where})', detail='' if ok else
-             f'{cname} from `{where}` can leave the decoder: it is not a request error, so framing garbage is answered with a 500 instead of a client error',
-             why='no framing garbage causes anything but acceptance or a client error', key_extra=f'{cname}:{where}')
-    # decoder state is local to the call (size-line buffer, flags): no module-level scratch objects
-    from .. import effects as EF
-    for w in EF.shared_writes(P, [f]):
-        R.ob('C05.d', f, w['node'], False, detail=
-             f'the decoder keeps scanning state in the shared location {w["target"]}: two bodies decoded at the same time overwrite each other\'s size digits '
-             f'(a truncated body can be accepted as complete)', key_extra='shared:' + w['target'] + w['kind'])
 
     # ---- e: mapping of request errors
     check_errors_mapping(P, R, 'C05.e')
